@@ -34,7 +34,9 @@ func init() {
 			"every declared struct type of the zoo (41: recursive, mutually recursive, embedded, defined element types, empty, anonymous members, yaml tags, generics, arrays) under the full option matrix " +
 			"(UseAllExportedFields x ThrowErrorOnCycle x SchemaCustomizer none/identity/excluding x CreateComponentSchemas off/on/+TopLevel/+Generics x CreateTypeNameGenerator none/prefix/table = 144 sets); " +
 			"the zoo under 5 wrappers with random option sets; 40 embedded/tag/yaml shapes; then a seeded random stream of types " +
-			"(reflect.StructOf/SliceOf/MapOf/ArrayOf/PointerTo, depth <= 4, <= 4 fields, embedded structs and defined types, tag options, yaml tags, name clashes, map key kinds, references to the declared types) with random values and random option sets. " +
+			"(reflect.StructOf/SliceOf/MapOf/ArrayOf/PointerTo, depth <= 4, <= 4 fields, embedded structs and defined types, tag options, yaml tags, name clashes, map key kinds, references to the declared types) with random values and random option sets; " +
+			"histories on ONE generator (case field `pre`: types generated first with GenerateSchemaRef, then Generator.NewSchemaRefForValue): every declared struct after X, *X, []X, []*X, map X, X then *X, struct{P *X} for the declared structs X it refers to, under five option sets that cannot fail, " +
+			"and a random stream of random types after one to three of their own component types (bare, behind a pointer, in a slice). " +
 			"A case is non-trivial when the model reports at least one non-default branch (kind with bounds, pointer, cache hit, cycle cut, embedded, omitempty, untagged, exported component, option, ...).",
 		Exhaustive: true,
 		Gen:        genC18,
@@ -48,6 +50,7 @@ func init() {
 			"structs have at most 12 discovered fields (sort.Sort is an insertion sort, hence stable, up to that size)",
 			"a SchemaCustomizer is exercised through the three ways it can return (nil, ExcludeSchemaSentinel, another error), not through edits of the schema",
 			"type-name generators are injective on the declared names of a case (otherwise the case is outside the domain)",
+			"histories contain no failing call (no ThrowErrorOnCycle, no customizer): what a failed call leaves in the generator is not compared",
 			"generation runs on one goroutine (first-time concurrent use of one type changes where cycles are cut)",
 		},
 	})
@@ -406,7 +409,18 @@ func runC18Direct(c hx.Case) any {
 	}
 	res["enc"] = json.RawMessage(enc)
 	schemas := openapi3.Schemas{}
-	ref, err := openapi3gen.NewSchemaRefForValue(val.Interface(), schemas, opts...)
+	var ref *openapi3.SchemaRef
+	if pre := jlist(c["pre"]); len(pre) > 0 {
+		// reuse: one Generator, GenerateSchemaRef for every earlier type (results and errors ignored: only the state
+		// that is kept matters), then the export loop once, after the last call
+		g := openapi3gen.NewGenerator(opts...)
+		for _, p := range pre {
+			_, _ = g.GenerateSchemaRef(c18Build(asObj(p)))
+		}
+		ref, err = g.NewSchemaRefForValue(val.Interface(), schemas)
+	} else {
+		ref, err = openapi3gen.NewSchemaRefForValue(val.Interface(), schemas, opts...)
+	}
 	if err != nil || ref == nil {
 		res["err"] = fmt.Sprint("generate: ", err)
 		switch {
@@ -1266,6 +1280,8 @@ func genC18(ctx *hx.Ctx, emit func(hx.Case)) {
 	}
 	// 3. declared zoo
 	c18ZooCases(ctx, emit)
+	// 3b. reuse of one generator
+	c18ReuseCases(ctx, emit)
 	// 4. the self-recursive container types
 	for _, t := range []obj{{"k": "recs", "m": false}, {"k": "recs", "m": true}, st(fld("A", "a", obj{"k": "recs", "m": false}))} {
 		decls := map[string]any{}
@@ -1292,12 +1308,134 @@ func genC18(ctx *hx.Ctx, emit func(hx.Case)) {
 			emit(c18CaseO(t, v, r.Chance(35), o))
 		}
 	}
+	// 6. random histories on one generator
+	c18RandomHistories(ctx, emit)
+}
+
+// c18SubTypes: the type descriptions occurring inside d (d included), declared structs as `named`.
+func c18SubTypes(d obj, out *[]obj) {
+	if d == nil {
+		return
+	}
+	*out = append(*out, d)
+	switch d["k"] {
+	case "def":
+		c18SubTypes(asObj(d["u"]), out)
+	case "ptr", "slice", "map", "array":
+		c18SubTypes(asObj(d["e"]), out)
+	case "struct":
+		for _, f := range jlist(d["fields"]) {
+			c18SubTypes(asObj(asObj(f)["t"]), out)
+		}
+	}
+}
+
+// c18RandomHistories: random types under random option sets that cannot fail (no ThrowErrorOnCycle, no customizer), each
+// generated after a random history of one to three types taken from inside the type (bare, behind a pointer, in a slice).
+func c18RandomHistories(ctx *hx.Ctx, emit func(hx.Case)) {
+	r := ctx.Rng
+	n := 500
+	if ctx.Thorough() {
+		n = 8000
+	}
+	for i := 0; i < n; i++ {
+		o := c18RandOpts(r)
+		delete(o, "throw")
+		delete(o, "cust")
+		delete(o, "excl")
+		delete(o, "fail")
+		anon := !jbool(o, "export") || r.Chance(20)
+		t := c18RandType(r, 1+r.Intn(3), r.Chance(70) || !anon, anon)
+		decls := map[string]any{}
+		c18AddDecls(t, decls)
+		var subs []obj
+		c18SubTypes(t, &subs)
+		names := []string{}
+		for x := range decls {
+			names = append(names, x)
+		}
+		sort.Strings(names)
+		for _, x := range names {
+			subs = append(subs, named(x))
+		}
+		var pre []any
+		for k := 1 + r.Intn(3); k > 0; k-- {
+			p := subs[r.Intn(len(subs))]
+			switch r.Intn(4) {
+			case 0:
+				p = ptr(p)
+			case 1:
+				p = sl(p)
+			}
+			pre = append(pre, p)
+		}
+		v := c18Value(r, t, decls, 1+r.Intn(4))
+		if _, isNil := v["nil"]; isNil {
+			continue
+		}
+		emit(c18CaseP(t, v, r.Chance(35), o, pre))
+	}
 }
 
 // ------------------------------------------------------------------ shrinking
 
 func c18Sub(c hx.Case, t, v obj) hx.Case {
-	return c18CaseO(t, v, jbool(c, "all"), asObj(c["opts"]))
+	return c18CaseP(t, v, jbool(c, "all"), asObj(c["opts"]), jlist(c["pre"]))
+}
+
+// c18CaseP: a case in which the types `pre` are generated first, in this order, on the same Generator.
+func c18CaseP(t, v obj, all bool, o obj, pre []any) hx.Case {
+	c := c18CaseO(t, v, all, o)
+	if len(pre) == 0 {
+		return c
+	}
+	decls := map[string]any{}
+	c18AddDecls(t, decls)
+	for _, p := range pre {
+		c18AddDecls(asObj(p), decls)
+	}
+	c["decls"] = c18DeclList(decls)
+	c["pre"] = pre
+	return c
+}
+
+// c18ReuseCases: the history dimension. For every declared struct of the zoo and every declared struct X it refers to
+// (itself included): X, *X, []X, []*X, map[string]X and X then *X are generated first on the same generator, under the
+// option sets that cannot fail (no ThrowErrorOnCycle, no customizer).
+func c18ReuseCases(ctx *hx.Ctx, emit func(hx.Case)) {
+	r := ctx.Rng
+	optSets := []obj{nil, {"export": true}, {"export": true, "top": true}, {"tng": obj{"pfx": "X_", "tbl": []any{}}},
+		{"export": true, "top": true, "tng": obj{"pfx": "X_", "tbl": []any{}}}}
+	for _, n := range c18ZooStructs {
+		t := named(n)
+		decls := map[string]any{}
+		c18AddDecls(t, decls)
+		var xs []string
+		for x := range decls {
+			xs = append(xs, x)
+		}
+		sort.Strings(xs)
+		if len(xs) > 3 && !ctx.Thorough() {
+			xs = xs[:3]
+		}
+		for _, x := range xs {
+			X := named(x)
+			pres := [][]any{{X}, {ptr(X)}, {sl(X)}, {sl(ptr(X))}, {mp(X)}, {X, ptr(X)}, {st(fld("P", "p", ptr(X)))}}
+			for pi, pre := range pres {
+				for oi, o := range optSets {
+					if !ctx.Thorough() && (pi+oi)%2 == 1 && oi > 0 {
+						continue
+					}
+					oo := obj{}
+					for k, v := range o {
+						oo[k] = v
+					}
+					v := c18Value(r, t, decls, 1+(pi+oi)%3)
+					emit(c18CaseP(t, v, false, oo, pre))
+				}
+			}
+		}
+	}
 }
 
 func shrinkC18(c hx.Case) []hx.Case {
@@ -1305,6 +1443,11 @@ func shrinkC18(c hx.Case) []hx.Case {
 	t, v := asObj(c["type"]), asObj(c["value"])
 	if t == nil || v == nil {
 		return nil
+	}
+	if pre := jlist(c["pre"]); len(pre) > 0 { // a shorter history
+		for _, p := range dropEach(pre) {
+			out = append(out, c18CaseP(t, v, jbool(c, "all"), asObj(c["opts"]), p))
+		}
 	}
 	decls := map[string]any{}
 	for _, d := range jlist(c["decls"]) {
